@@ -3,12 +3,18 @@ Pre-emption points are where the harness puts them (Proxy around an object: befo
 method call; IEvent / IList for the simple client). The scheduler runs on the main
 (CrossHair-traced) thread and picks the next thread with chooser(k); worker threads only
 touch concrete data. A state with unfinished workers and no runnable one is *stuck*."""
+import sys
 import threading
 
 
 class Sched:
-    def __init__(self, chooser, max_decisions=200):
+    def __init__(self, chooser, max_decisions=200, fine_codes=(), preempt_budget=None):
         self.chooser = chooser
+        # fine mode: every source line of the functions whose code objects are in fine_codes is a pre-emption
+        # point of the worker threads (sys.settrace); preempt_budget bounds the number of pre-emptions (a thread
+        # that could continue is suspended in favour of another) - context bounding; None = unbounded
+        self.fine_codes = set(fine_codes)
+        self.preempt_left = preempt_budget
         self.ws = []
         self.cur = None
         self.trace = []
@@ -24,16 +30,31 @@ class Sched:
 
         def run():
             w['go'].acquire()
+            if self.fine_codes:
+                sys.settrace(self._tracer)
             try:
                 w['res'] = fn()
             except Exception as e:
                 w['exc'] = e
+            finally:
+                if self.fine_codes:
+                    sys.settrace(None)
             w['done'] = True
             w['parked'].release()
         th = threading.Thread(target=run, daemon=True)
         th.start()
         self.ws.append(w)
         return w
+
+    def _tracer(self, frame, event, arg):
+        if event == 'call' and frame.f_code in self.fine_codes:
+            return self._line
+        return None
+
+    def _line(self, frame, event, arg):
+        if event == 'line':
+            self.point('ln:%s+%d' % (frame.f_code.co_name, frame.f_lineno - frame.f_code.co_firstlineno))
+        return self._line
 
     def point(self, label, blocked=None, args=None):
         """pre-emption point, called from a worker thread. blocked = (cond, may_time_out) makes the
@@ -42,6 +63,8 @@ class Sched:
         w = self.cur
         if w is None or threading.current_thread() is threading.main_thread():
             return False
+        if blocked is None and self.preempt_left is not None and self.preempt_left <= 0:
+            return False          # no pre-emption left: the thread simply goes on (nothing to decide, nothing recorded)
         w['blocked'] = blocked
         self.trace.append((w['name'], label) if args is None else (w['name'], label, args))
         w['parked'].release()
@@ -77,6 +100,8 @@ class Sched:
             w, to = opts[k]
             if last is not None and w is not last and not last['done'] and any(o[0] is last for o in opts):
                 self.switches += 1
+                if self.preempt_left is not None:
+                    self.preempt_left -= 1
             last = w
             w['timed_out'] = to
             self.cur = w
@@ -98,8 +123,9 @@ class Sched:
 class Proxy:
     """pre-emption point before every method call on the target"""
 
-    def __init__(self, target, sched, name, skip=()):
+    def __init__(self, target, sched, name, skip=(), rets=()):
         object.__setattr__(self, '_t', target)
+        object.__setattr__(self, '_rets', set(rets))     # methods whose return is recorded in the trace too
         object.__setattr__(self, '_s', sched)
         object.__setattr__(self, '_n', name)
         object.__setattr__(self, '_skip', set(skip))
@@ -108,8 +134,17 @@ class Proxy:
         v = getattr(self._t, a)
         if callable(v) and a not in self._skip:
             def f(*args, **kw):
-                self._s.point(self._n + '.' + a, args=tuple(x for x in args[:2] if isinstance(x, str)))
-                return v(*args, **kw)
+                sa = tuple(x for x in args[:2] if isinstance(x, str))
+                self._s.point(self._n + '.' + a, args=sa)
+                if a not in self._rets:
+                    return v(*args, **kw)
+                cur = self._s.cur
+                if cur is not None and threading.current_thread() is not threading.main_thread():
+                    self._s.trace.append((cur['name'], 'call:' + self._n + '.' + a, sa))
+                r = v(*args, **kw)
+                if cur is not None and threading.current_thread() is not threading.main_thread():
+                    self._s.trace.append((cur['name'], 'ret:' + self._n + '.' + a, sa, r if isinstance(r, bool) else None))
+                return r
             return f
         return v
 
